@@ -559,7 +559,19 @@ def history_stages(ctx, k):
     rng = ctx.rng
     base = ctx.scratch / f's{k}'
     src = base / 'src'
-    info = reference_inputs(rng, src)
+    info = None
+    for attempt in range(6):
+        try:
+            info = reference_inputs(rng, src)
+            break
+        except Exception as e:     # noqa
+            # the UNTRACED preparation (statistics + reference markers of a generated reference) raised:
+            # a matter of C11/C13/C18 (e.g. a reference without any marker for some pair), not of C19
+            ctx.dist('reference-preparation', f'regenerated after {type(e).__name__}')
+            shutil.rmtree(src, ignore_errors=True)
+    if info is None:
+        raise RuntimeError('could not generate a reference the preparatory stages accept')
+    ctx.dist('reference-preparation', 'ok')
     shutil.rmtree(src / 'ptmp', ignore_errors=True)
     fresh = sandbox(base, 'fresh')
     shared = sandbox(base, 'shared')
@@ -588,6 +600,8 @@ def run(ctx):
         'a scratch directory is always given (tmp_dir is not None); concurrent runs use distinct output file names and a '
         'private copy of the query when obsm_key is set',
         'tempfile uniqueness under concurrency is assumed (the two-run acceptor checks the observed names are distinct)',
+        'generated references on which the untraced preparation (statistics, reference markers) itself raises are '
+        'regenerated (counted in distribution.reference-preparation); such failures belong to C11/C13/C18',
     ]
     n_map = ctx.n(2, 14)
     n_conc = ctx.n(3, 14)
